@@ -75,6 +75,9 @@ claim("C28", "BOUNDED stand-in for the round trip (exhaustive run of the real bu
       explanation="Functional round trip decided only by a bounded exhaustive run of the real functions (stated bound in bounded_stand_ins); panic-freedom and termination of parseQuotedParam are discharged as proof obligations (obligations/discharged count only those).",
       technique="contract-based deductive verification (panic-freedom, termination) + bounded exhaustive stand-in for the string round trip")
 
+claim("C37", "Proof over every path of handleUnary, handleStreamInit and handleStreamExchange that each error response written after the dispatch hook was started is also recorded in *handlerErr (which the deferred cleanup hands to OnDispatchEnd).",
+      "", ["exactly-one-start/one-end counting (startDispatchHook closures, pipe serveOne)", "success responses with non-nil handlerErr", "panics between start and end"])
+
 # properties not claimed: reason
 NOT_APPLICABLE = {
     "C11": "relational two-run equivalence between the pipe loop and the HTTP handlers routed through gob, AEAD and Arrow IPC; contracts here are single-run and per function",
